@@ -128,6 +128,14 @@ def load_py(D, groups=None, species=None, **kw):
         with open(path, 'w') as f:
             f.write(gen.phyloxml(D.T))
         return pyham.Ham(tree_file=path, tree_format='phyloxml', hog_file=xml, orthoXML_as_string=True, **kw)
+    newick_dir = kw.pop('newick_dir', None)
+    if newick_dir:
+        # the same tree supplied as a Newick FILE
+        path = os.path.join(newick_dir, 'tree.nwk')
+        if not os.path.exists(path) or open(path).read() != nwk_of(D):      # (an unchanged file is not touched: same mtime)
+            with open(path, 'w') as f:
+                f.write(nwk_of(D))
+        return pyham.Ham(tree_file=path, tree_format='newick', hog_file=xml, orthoXML_as_string=True, **kw)
     return pyham.Ham(tree_file=nwk_of(D), hog_file=xml, orthoXML_as_string=True, **kw)
 
 def try_load(D, **kw):
